@@ -36,6 +36,9 @@ PIPE_INPUTS = {
 }
 
 
+GROUPED_INPUT = ([1, 1, 1, 0, 9], [1, 0, 0, 0, 9])
+
+
 def cases(tier):
     # the configuration of ONE metric (all four scenarios) and the empty-list value are symbolic per case; the other metrics
     # carry the fixed value ONE for every scenario, so that reading another metric's configuration is still detected
@@ -47,6 +50,9 @@ def cases(tier):
         for it in ("SEMANTIC", "UNMATCHED_INSTANCE", "MATCHED_INSTANCE"):
             for sc in LH.SCEN:
                 out.append({"name": "pipe_%s_%s_%s" % (it, sc, sm), "what": "pipe", "input_type": it, "scenario": sc, "sym_metric": sm})
+        # the "instances on both sides without a match" scenario reached through the evaluator with class groups: a pair found by the matcher
+        # (IoU 1/3 >= 1/4) fails the decision threshold 1/2 in a multi-instance group evaluated AFTER a single-instance group
+        out.append({"name": "pipe_grouped_%s" % sm, "what": "pipe_grouped", "sym_metric": sm})
     out.append({"name": "tp_positive_two_configs", "what": "tp_pos", "sym_metric": "DSC"})
     return out
 
@@ -155,6 +161,15 @@ def run_case(case):
                                               instance_metrics=eval_metrics, global_metrics=[], edge_case_handler=handler, verbose=False)
                 cnt = {"NO_INSTANCES": (0, 0), "EMPTY_PRED": (0, 1), "EMPTY_REF": (1, 0), "NORMAL": (1, 1)}[case["scenario"]]
                 _check_zero_tp(h, res, vs, case["scenario"], z3.IntVal(cnt[0]), z3.IntVal(cnt[1]), metrics)
+            elif what == "pipe_grouped":
+                LG = T.mod("panoptica.utils.label_group")
+                SC = T.mod("panoptica.utils.segmentation_class")
+                pl, rl = GROUPED_INPUT
+                groups = SC.SegmentationClassGroups({"S": LG.LabelGroup([9], True), "M": LG.LabelGroup([1, 2], False)})
+                ev = PE.Panoptica_Evaluator(expected_input=PP.InputType.UNMATCHED_INSTANCE, instance_matcher=IMm.NaiveThresholdMatching(Metric.IOU, 0.25), segmentation_class_groups=groups,
+                                            instance_metrics=eval_metrics, global_metrics=[], decision_metric=Metric.IOU, decision_threshold=0.5, edge_case_handler=handler)
+                res = ev.evaluate(SArr(list(pl), "uint8", (1, 5)).protect("caller prediction"), SArr(list(rl), "uint8", (1, 5)).protect("caller reference"), verbose=False)["m"][0]   # 2-D: clDice needs it
+                _check_zero_tp(h, res, vs, "NORMAL", z3.IntVal(1), z3.IntVal(1), metrics)
             else:
                 # tp > 0: the handler has no influence - same input under two independent configurations
                 outs = []
@@ -243,6 +258,16 @@ def real_handler(case, mode, expect):
                                        instance_metrics=metrics, global_metrics=[], edge_case_handler=hd, verbose=False)
             cnt = {"NO_INSTANCES": (0, 0), "EMPTY_PRED": (0, 1), "EMPTY_REF": (1, 0), "NORMAL": (1, 1)}[case["scenario"]]
             bad = check(res, case["scenario"], cnt[0], cnt[1])
+        elif what == "pipe_grouped":
+            from panoptica import Panoptica_Evaluator
+            from panoptica.utils.label_group import LabelGroup
+            from panoptica.utils.segmentation_class import SegmentationClassGroups
+            pl, rl = GROUPED_INPUT
+            ev = Panoptica_Evaluator(expected_input=InputType.UNMATCHED_INSTANCE, instance_matcher=NaiveThresholdMatching(Metric.IOU, 0.25),
+                                     segmentation_class_groups=SegmentationClassGroups({"S": LabelGroup([9], True), "M": LabelGroup([1, 2], False)}),
+                                     instance_metrics=metrics, global_metrics=[], decision_metric=Metric.IOU, decision_threshold=0.5, edge_case_handler=hd)
+            res = ev.evaluate(np.array([pl], dtype=np.uint8), np.array([rl], dtype=np.uint8), verbose=False)["m"][0]
+            bad = check(res, "NORMAL", 1, 1)
         else:
             outs = []
             for cfg in (case["cfg"], case["cfg_b"]):
